@@ -9,6 +9,7 @@
 #define VF_INPUTS(X) X(double, numa, ) X(double, numb, ) X(unsigned char, ka, ) X(unsigned char, kb, ) X(unsigned char, na, ) X(unsigned char, nb, ) X(unsigned char, keya, [K]) X(unsigned char, keyb, [K]) \
     X(unsigned char, kinda, [K]) X(unsigned char, kindb, [K]) X(int, va, [K]) X(int, vb, [K]) X(unsigned char, sa, [K]) X(unsigned char, sb, [K])
 #include "vf.h"
+#include "vf_str.h"
 #ifndef VF_LIB
 #define VF_LIB "cJSON_Utils.c"
 #endif
